@@ -20,7 +20,8 @@ EXPLANATION = (
     "episodes at the `>= total_episodes` test, which leads out of the loop). R3 prunes the CFG by the truth table of "
     "(terminated, truncated) and requires that env.step is not reachable from env.step without a reset once the episode "
     "has ended. R4 requires every learning call to be control dependent on `counter >= learning_starts`. R5 checks the "
-    "select/feedback protocol of the task selectors, the D-UCB arm choice form and, symbolically, that per-task step "
+    "select/feedback protocol of the task selectors, the D-UCB arm choice form (and that the history container whose length counts the plays "
+    "of the initial rounds keeps every play: a container bounded independently of the number of arms saturates below 2 * n_arms) and, symbolically, that per-task step "
     "totals and the global counter receive the same increments on every path of the SMT / active-MT schedulers."
 )
 TRUSTED = [
@@ -34,7 +35,7 @@ RULES = {
     "R2-episodes": "the `total_episodes` exit tests `finished episodes >= total_episodes` with the episode counter equal to the number of finished episodes, and leaves the loop",
     "R3-done-reset": "for every (terminated, truncated) row with an ended episode, env.step is not reachable from env.step without env.reset",
     "R4-warmup": "every learning call of a routine with a documented `learning_starts` is control dependent on `counter >= learning_starts`",
-    "R5-scheduler": "selector overrides call the base protocol method on all paths and return self.tasks[...]; D-UCB plays round-robin first, then argmax(mean+padding); "
+    "R5-scheduler": "selector overrides call the base protocol method on all paths and return self.tasks[...]; D-UCB plays round-robin first, then argmax(mean+padding), and counts its plays with a container that is not bounded independently of n_arms; "
                     "SMT/AMT add identical step counts to the per-task total and the global counter on every path; sub-calls receive the loop budget and counter",
 }
 
@@ -67,17 +68,65 @@ def _role_param(fn, qual: str, role: str):
     return role if role in param_names(fn) else None
 
 
-def _result_field(fn, names):
-    """(return node, expr) of the namedtuple field in ``names`` of the function's result."""
-    for n in ast.walk(fn):
-        if isinstance(n, ast.Return) and isinstance(n.value, ast.Call) and isinstance(n.value.func, ast.Call) and dotted(n.value.func.func) == "namedtuple":
-            nt = n.value.func
-            if len(nt.args) == 2 and isinstance(nt.args[1], (ast.List, ast.Tuple)):
-                fields = [e.value for e in nt.args[1].elts if isinstance(e, ast.Constant)]
-                for f, v in zip(fields, n.value.args):
-                    if f in names:
-                        return n, v, f
+def _record_type_fields(fn, f, repo=None, mi=None):
+    """Field names, in constructor order, of the record type that the callee expression ``f`` denotes: `namedtuple("N", [...])` itself, a
+    name bound once (in the function or at module level) to such a call, a NamedTuple / dataclass class of the repository.  None: not read."""
+    if isinstance(f, ast.Call) and dotted(f.func).split(".")[-1] == "namedtuple" and not f.keywords:
+        return NF._record_fields(ast.Assign(targets=[], value=f))
+    if isinstance(f, ast.Name):
+        stores = [n for n in ast.walk(fn) if isinstance(n, ast.Name) and n.id == f.id and isinstance(n.ctx, (ast.Store, ast.Del))]
+        if stores or f.id in param_names(fn):
+            binds = [n for n in ast.walk(fn) if isinstance(n, ast.Assign) and len(n.targets) == 1 and isinstance(n.targets[0], ast.Name) and n.targets[0].id == f.id]
+            if len(stores) == 1 and len(binds) == 1 and isinstance(binds[0].value, ast.Call):
+                return _record_type_fields(fn, binds[0].value, None, None) if isinstance(binds[0].value.func, (ast.Name, ast.Attribute)) and dotted(binds[0].value.func).split(".")[-1] == "namedtuple" else None
+            return None
+    if isinstance(f, (ast.Name, ast.Attribute)) and repo is not None and mi is not None:
+        q = repo.resolve_expr(mi, f)
+        if q is not None and q.split(".")[0] == repo.PKG:
+            try:
+                return NF._record_fields(repo.lookup(q)[1])
+            except Exception:
+                return None
+    return None
+
+
+def _result_field(fn, names, repo=None, mi=None):
+    """(return node, expr, field) of the record field in ``names`` of the function's result.  The result is a record construction - an inline
+    `namedtuple(...)(...)`, a record type bound to a name first, a NamedTuple / dataclass class - with positional or keyword arguments (bound
+    by the field order of the type), returned directly or through a local that is bound once."""
+    for n in _own_returns(fn):
+        v = n.value
+        if isinstance(v, ast.Name):
+            stores = [x for x in ast.walk(fn) if isinstance(x, ast.Name) and x.id == v.id and isinstance(x.ctx, (ast.Store, ast.Del))]
+            binds = [x for x in ast.walk(fn) if isinstance(x, ast.Assign) and len(x.targets) == 1 and isinstance(x.targets[0], ast.Name) and x.targets[0].id == v.id]
+            v = binds[0].value if len(stores) == 1 and len(binds) == 1 else None
+        if not isinstance(v, ast.Call) or any(isinstance(a, ast.Starred) for a in v.args) or any(k.arg is None for k in v.keywords):
+            continue
+        fields = _record_type_fields(fn, v.func, repo, mi)
+        if not fields or len(v.args) + len(v.keywords) > len(fields):
+            continue
+        rec = dict(zip(fields, v.args))
+        if any(k.arg in rec or k.arg not in fields for k in v.keywords):
+            continue
+        rec.update({k.arg: k.value for k in v.keywords})
+        for f in fields:
+            if f in names and f in rec:
+                return n, rec[f], f
     return None, None, None
+
+
+def _own_returns(fn):
+    """Return statements of the function itself (not of nested functions)."""
+    out, todo = [], list(fn.body)
+    while todo:
+        x = todo.pop()
+        if isinstance(x, (ast.FunctionDef, ast.AsyncFunctionDef, ast.Lambda, ast.ClassDef)):
+            continue
+        if isinstance(x, ast.Return):
+            out.append(x)
+        todo.extend(ast.iter_child_nodes(x))
+    top = {id(x) for x in fn.body}
+    return sorted(out, key=lambda r: (id(r) not in top, r.lineno, r.col_offset))       # the function's final return first, then early returns
 
 
 def _name_plus_const(e):
@@ -265,7 +314,7 @@ def r1_count(ck, repo, L, start_param="global_step"):
     (the returned counter, for-range targets, copies `v = w + k`).  All d_v stay bounded on a correct loop."""
     fn, cfg, S = L.fn, L.cfg, L.step_node
     site = L.qual
-    rnode, rexpr, fld = _result_field(fn, COUNTER_FIELDS)
+    rnode, rexpr, fld = _result_field(fn, COUNTER_FIELDS, repo, L.mi)
     ck.need(rnode is not None, f"{site}: no result field {COUNTER_FIELDS} (anchor vanished)")
     c, kret = _name_plus_const(rexpr)
     ck.need(c is not None, f"{site}: returned counter `{short(rexpr)}` is not `name +/- const` (unrecognised idiom)")
@@ -275,6 +324,22 @@ def r1_count(ck, repo, L, start_param="global_step"):
     # tracked variables: closure of c under `v = w + k` copies and for-range targets
     tracked = {c}
     start_redefined = any(d.name == start_param and d.kind != "param" for n in cfg.nodes for d in n.defs)
+    # locals that are bound once, outside every loop, to `start + k` are names for that number (`first_step = global_step`)
+    # (while the parameter still holds the value it was called with)
+    alias = {}
+    alldefs = {}
+    for n in cfg.nodes:
+        for d in n.defs:
+            alldefs.setdefault(d.name, []).append((n, d))
+    for nm_, ds_ in alldefs.items():
+        if len(ds_) == 1 and ds_[0][1].kind == "assign" and not cfg.enclosing_loops(ds_[0][0].id) and nm_ != c and nm_ != start_param:
+            w_, k_ = _name_plus_const(ds_[0][1].value)
+            if w_ == start_param and all(d_.kind == "param" for d_ in cfg.defs_of(ds_[0][0].id, start_param)):
+                alias[nm_] = k_
+
+    def _name_plus_const_(e):
+        nm_, k_ = _name_plus_const(e)
+        return (start_param, k_ + alias[nm_]) if nm_ in alias else (nm_, k_)
     if start_redefined:
         tracked.add(start_param)  # e.g. `for global_step in trange(global_step, ...)`: the parameter doubles as loop index
     changed = True
@@ -283,8 +348,15 @@ def r1_count(ck, repo, L, start_param="global_step"):
         for n in cfg.nodes:
             for d in n.defs:
                 if d.name in tracked and d.kind == "assign":
-                    nm, k = _name_plus_const(d.value)
+                    nm, k = _name_plus_const_(d.value)
                     if nm is not None and (nm != start_param or start_redefined) and nm not in tracked:
+                        tracked.add(nm)
+                        changed = True
+                elif d.name in tracked and d.kind == "for":
+                    # `for v in range(w + k, ...)`: the loop index starts from another local (a copy of the starting count)
+                    a0, _b0 = _range_args(d.value)
+                    nm, k = _name_plus_const_(a0) if a0 is not None else (None, None)
+                    if nm is not None and nm != start_param and nm not in tracked:
                         tracked.add(nm)
                         changed = True
     order = sorted(tracked)
@@ -298,7 +370,7 @@ def r1_count(ck, repo, L, start_param="global_step"):
             if d.kind == "aug" and isinstance(s.op, (ast.Add, ast.Sub)) and isinstance(s.value, ast.Constant) and isinstance(s.value.value, int):
                 events.setdefault(n.id, []).append(("inc", d.name, s.value.value if isinstance(s.op, ast.Add) else -s.value.value))
             elif d.kind == "assign":
-                nm, k = _name_plus_const(d.value)
+                nm, k = _name_plus_const_(d.value)
                 if nm == start_param and (start_param not in tracked or not cfg.enclosing_loops(n.id)):
                     ck.need(not cfg.enclosing_loops(n.id), f"{site}: `{d.name} = {short(d.value)}` inside a loop (unrecognised idiom)")
                     events.setdefault(n.id, []).append(("set", d.name, k))
@@ -308,9 +380,9 @@ def r1_count(ck, repo, L, start_param="global_step"):
                     raise AnalysisError(f"{site}: counter `{d.name}` assigned `{short(d.value)}` (unrecognised idiom)")
             elif d.kind == "for":
                 a, b = _range_args(d.value)
-                nm, k = _name_plus_const(a) if a is not None else (None, None)
-                ck.need(a is not None and nm == start_param, f"{site}: counter loop `{short(s.iter)}` does not start at `{start_param}` (unrecognised idiom)")
-                events.setdefault(n.id, []).append(("for", d.name, k))
+                nm, k = _name_plus_const_(a) if a is not None else (None, None)
+                ck.need(a is not None and (nm == start_param or nm in tracked), f"{site}: counter loop `{short(s.iter)}` does not start at `{start_param}` (unrecognised idiom)")
+                events.setdefault(n.id, []).append(("for", d.name, k, None if nm == start_param else nm))
             else:
                 raise AnalysisError(f"{site}: unrecognised definition of counter `{d.name}`: {short(n.ast)}")
     init = tuple(0 if v == start_param else None for v in order)
@@ -347,7 +419,13 @@ def r1_count(ck, repo, L, start_param="global_step"):
                 ds[i] = None if w is None else w - ev[3]
             elif ev[0] == "for" and lab is True:
                 if nid not in entered:
-                    e_now = ds[i] if ds[i] is not None else 0  # v == start param: d_v = e ; otherwise e = 0 (S inside the loop)
+                    if ev[3] is not None:
+                        # the range starts at a tracked local w: v = w + k on entry, so d_v = d_w - k
+                        if ds[idx[ev[3]]] is None:
+                            raise AnalysisError(f"{site}: the counter loop starts at `{ev[3]}`, whose value is not known there (unrecognised form)")
+                        e_now = ds[idx[ev[3]]]
+                    else:
+                        e_now = ds[i] if ds[i] is not None else 0  # v == start param: d_v = e ; otherwise e = 0 (S inside the loop)
                     ds[i] = e_now - ev[2]
                     entered = entered | {nid}
                 else:
@@ -606,6 +684,16 @@ def _row_value(L, e, at, a, b, depth=0):
         if op == "or":
             return True if any(v is True for v in vals) else False if all(v is False for v in vals) else None
         return False if any(v is False for v in vals) else True if all(v is True for v in vals) else None
+    if isinstance(e, ast.Attribute) and isinstance(e.value, ast.Name) and getattr(L, "_repo", None) is not None:
+        # field of an immutable record (NamedTuple / frozen dataclass) that was built from this step's results
+        from ..loops import Origins
+        ds = cfg.defs_of(at, e.value.id)
+        if len(ds) != 1 or ds[0].kind not in ("assign", "walrus", "unpack") or ds[0].node in (at, S) or cfg.paths_avoiding(S, at, {ds[0].node}, feasible=False) is not None:
+            return None
+        org = Origins(L)
+        org.repo = L._repo
+        o = org.of_expr(e, at)
+        return a if o == {("step", 2)} else b if o == {("step", 3)} else None
     if isinstance(e, ast.Name) and depth < 4:
         ds = cfg.defs_of(at, e.id)
         if len(ds) != 1:
@@ -1665,6 +1753,243 @@ def r5_ducb_mean(ck, repo, nf: NF):
     ck.ob("R5-scheduler", pq, "padding-formula", got == want, got, "" if got == want else f"exploration bonus must be 2B*sqrt(zeta*log(n_t)/N_t(i)) = {want}", loc(mi, pf))
 
 
+_LIB_ARITH = ("numpy", "jax", "math", "builtins", "operator")
+_GROW = ("append", "extend", "appendleft", "extendleft", "insert", "copy", "count", "index", "__len__", "__iter__", "__getitem__")
+_SHRINK = ("pop", "popleft", "clear", "remove", "rotate", "reverse", "sort", "__delitem__", "__setitem__")
+
+
+def r5_ducb_play_counter(ck, repo):
+    """The initial rounds are delimited by a *count of plays* that choose_arm reads as the length of a history container
+    (`len(self.rewards) < 2 * n_arms`, round-robin arm `len(self.rewards) % n_arms`).  A length counts the plays only while the container
+    keeps every entry: a container that is bounded by a quantity that does not depend on the number of arms (`deque(maxlen=H)`, a history
+    re-bound to its last H entries) saturates at H, and for 2 * n_arms > H the scheduler never leaves the initial rounds (world witness:
+    any number of tasks is legal).  Every binding of such a container - in the class and wherever a D-UCB object is held - is classified:
+    unbounded (list, deque without / with `maxlen=None`), bounded independently of n_arms (violation), anything else undecided."""
+    C = "rl_blox.blox.mapb.DUCB"
+    cls = repo.cls(C)
+    cmi = cls._module
+    ch = repo.func(C + ".choose_arm")
+    in_print = {id(y) for x in ast.walk(ch) if isinstance(x, ast.Call) and dotted(x.func) == "print" for y in ast.walk(x)}
+    counters = sorted({x.args[0].attr for x in ast.walk(ch) if isinstance(x, ast.Call) and id(x) not in in_print and dotted(x.func) == "len" and len(x.args) == 1 and not x.keywords
+                       and isinstance(x.args[0], ast.Attribute) and dotted(x.args[0].value) == "self"})
+    if not counters:
+        ck.note(f"{C}.choose_arm reads no history length: no play-counter obligation")
+        return
+    unread = []
+
+    def stmts_of(fn):
+        out, todo = [], list(fn.body)
+        while todo:
+            x = todo.pop()
+            if isinstance(x, (ast.FunctionDef, ast.AsyncFunctionDef, ast.ClassDef)):
+                continue
+            if isinstance(x, ast.stmt):
+                out.append(x)
+            for f_ in ("body", "orelse", "finalbody", "handlers", "cases"):
+                todo.extend(y for y in getattr(x, f_, []) or [] if isinstance(y, ast.AST))
+        return out
+
+    cfgs_ = {}
+
+    def cfg_of(fn):
+        if id(fn) not in cfgs_:
+            cfgs_[id(fn)] = CFG(fn)
+        return cfgs_[id(fn)]
+
+    def attr_binds(scope, fn, attr):
+        """Bindings `self.attr = v` as [(stmt, method)]: those of the method itself, else those of the other methods of the class."""
+        def of(f_):
+            return [(x, f_) for x in stmts_of(f_) if isinstance(x, (ast.Assign, ast.AnnAssign)) and x.value is not None
+                    and any(dotted(t) == "self." + attr for t in (x.targets if isinstance(x, ast.Assign) else [x.target]))]
+        own = of(fn)
+        if own or not isinstance(scope, ast.ClassDef):
+            return own
+        return [b_ for f_ in scope.body if isinstance(f_, ast.FunctionDef) and f_ is not fn for b_ in of(f_)]
+
+    def alternatives(e, scope, fn, mi, at, depth=0):
+        """The values the expression may have, as [(expr, method, node)]: conditional expressions, locals and attributes of the object with
+        several bindings are split; everything else is one value."""
+        cfg = cfg_of(fn)
+        if depth > 6:
+            return [(e, fn, at)]
+        if isinstance(e, ast.IfExp):
+            return alternatives(e.body, scope, fn, mi, at, depth + 1) + alternatives(e.orelse, scope, fn, mi, at, depth + 1)
+        if isinstance(e, ast.Name):
+            ds = cfg.defs_of(at, e.id) if at is not None else []
+            if ds and all(d.kind in ("assign", "walrus") and isinstance(d.value, ast.AST) and d.node != at for d in ds):
+                return [a_ for d in ds for a_ in alternatives(d.value, scope, fn, mi, d.node, depth + 1)]
+            if not ds and e.id not in param_names(fn):
+                g = mi.defs.get(e.id)
+                if isinstance(g, (ast.Assign, ast.AnnAssign)) and g.value is not None:
+                    return alternatives(g.value, scope, fn, mi, None, depth + 1)
+            return [(e, fn, at)]
+        if isinstance(e, ast.Attribute) and dotted(e.value) == "self":
+            binds = attr_binds(scope, fn, e.attr)
+            if binds and all(id(x) in cfg_of(f_).stmt_node for x, f_ in binds):
+                return [a_ for x, f_ in binds for a_ in alternatives(x.value, scope, f_, mi, cfg_of(f_).stmt_node[id(x)], depth + 1)]
+        return [(e, fn, at)]
+
+    def leaves(e, scope, fn, mi, at, depth=0):
+        """(names the value is computed from - parameters, attributes, module constants -, readable?) looking through locals / attributes."""
+        names, ok = set(), True
+        if depth > 8:
+            return names, False
+        callee, attr_base = set(), set()
+        for x in ast.walk(e):
+            if isinstance(x, ast.Call):
+                r = repo.resolve_expr(mi, x.func) if isinstance(x.func, (ast.Name, ast.Attribute)) else None
+                if not (dotted(x.func) in _ARITH_CALLS or (r is not None and r.split(".")[0] in _LIB_ARITH)):
+                    ok = False
+                f_ = x.func
+                while isinstance(f_, ast.Attribute):
+                    callee.add(id(f_))
+                    f_ = f_.value
+                callee.add(id(f_))
+            if isinstance(x, ast.Attribute):
+                attr_base.add(id(x.value))
+            if isinstance(x, (ast.Lambda, ast.ListComp, ast.SetComp, ast.DictComp, ast.GeneratorExp, ast.Subscript, ast.Starred, ast.Await)):
+                ok = False
+        for x in ast.walk(e):
+            if id(x) in callee or id(x) in attr_base:
+                continue
+            if isinstance(x, (ast.Attribute, ast.Name)):
+                if isinstance(x, ast.Attribute) and dotted(x.value) != "self":
+                    names.add(dotted(x) or ast.unparse(x))
+                    ok = False
+                    continue
+                for v_, f_, at_ in alternatives(x, scope, fn, mi, at):
+                    if v_ is x:
+                        names.add(dotted(x))
+                        if isinstance(x, ast.Attribute) or x.id not in param_names(f_):
+                            ok = False           # an attribute bound elsewhere / a name that is not a parameter: not read
+                    else:
+                        n2, ok2 = leaves(v_, scope, f_, mi, at_, depth + 1)
+                        names |= n2
+                        ok = ok and ok2
+        return names, ok
+
+    def bound_kind(M, scope, fn, mi, at):
+        """`unbounded` / `independent` (some configuration gives a finite bound that does not involve the number of arms) / None."""
+        kinds = []
+        for v_, f_, at_ in alternatives(M, scope, fn, mi, at):
+            if isinstance(v_, ast.Constant) and v_.value is None:
+                kinds.append("unbounded")
+                continue
+            if isinstance(v_, ast.Constant) and isinstance(v_.value, int) and not isinstance(v_.value, bool):
+                kinds.append("independent")
+                continue
+            if isinstance(v_, ast.Call) and dotted(v_.func) == "max" and not v_.keywords and len(v_.args) >= 2 and at_ is not None:
+                # a bound that is at least the 2 * n_arms plays of the initial rounds: the test `count < 2 * n_arms` turns false at the same
+                # play and stays false (a full container never shrinks)
+                nfq = NF(repo, inline_calls=False)
+                sc_ = Scope(cfg_of(f_), mi, {}, C)
+                covers = False
+                for a_ in v_.args:
+                    try:
+                        pa = nfq.poly(a_, sc_, at_)
+                    except Exception:
+                        continue
+                    for atom in ("n_arms", "self.n_arms"):
+                        kk = (pa - Poly.atom(atom) * Poly.const(2)).const_value()
+                        covers = covers or (kk is not None and kk >= 0)
+                if covers:
+                    kinds.append("unbounded")
+                    continue
+            names, ok = leaves(v_, scope, f_, mi, at_)
+            kinds.append("independent" if ok and not any("arms" in n_ or "tasks" in n_ for n_ in names) else None)
+        if kinds and all(k == "unbounded" for k in kinds):
+            return "unbounded"
+        if None in kinds:
+            return None
+        return "independent"
+
+    def classify(v, target_txt, scope, fn, mi, at):
+        """(kind, shown) for the value a history container is bound to; a value that may be one of several (conditional expression, a
+        local bound on several paths) is bounded independently of the arms if one of them is, and unbounded if all of them are."""
+        alts_ = alternatives(v, scope, fn, mi, at)
+        if len(alts_) == 1 and alts_[0][0] is v:
+            return classify1(v, target_txt, scope, fn, mi, at)
+        got = [classify1(v_, target_txt, scope, f_, mi, at_) for v_, f_, at_ in alts_]
+        kinds = [k_ for k_, _ in got]
+        shown = " | ".join(sorted({t_ for _, t_ in got}))[:80]
+        return ("independent" if "independent" in kinds and None not in kinds else None if None in kinds else "unbounded"), shown
+
+    def classify1(v, target_txt, scope, fn, mi, at):
+        if isinstance(v, (ast.List, ast.ListComp)) or (isinstance(v, ast.Call) and dotted(v.func) == "list"):
+            return "unbounded", short(v, 40)
+        if isinstance(v, ast.Call) and isinstance(v.func, (ast.Name, ast.Attribute)) and repo.resolve_expr(mi, v.func) == "collections.deque" \
+                and not any(isinstance(a_, ast.Starred) for a_ in v.args) and not any(k_.arg is None for k_ in v.keywords) and len(v.args) <= 2:
+            M = next((k_.value for k_ in v.keywords if k_.arg == "maxlen"), v.args[1] if len(v.args) == 2 else None)
+            if M is None:
+                return "unbounded", short(v, 40)
+            return bound_kind(M, scope, fn, mi, at), f"maxlen = {short(M, 40)}"
+        if isinstance(v, ast.Subscript) and ast.unparse(v.value) == target_txt and isinstance(v.slice, ast.Slice) and v.slice.upper is None and v.slice.step is None \
+                and isinstance(v.slice.lower, ast.UnaryOp) and isinstance(v.slice.lower.op, ast.USub):
+            # history re-bound to its last M entries
+            k = bound_kind(v.slice.lower.operand, scope, fn, mi, at)
+            return ("independent" if k == "independent" else None), f"last {short(v.slice.lower.operand, 40)} entries"
+        return None, short(v, 40)
+
+    n_sites = 0
+    for mi in repo.modules.values():
+        scopes = [x for x in mi.tree.body if isinstance(x, (ast.ClassDef, ast.FunctionDef))]
+        for scope in scopes:
+            fns = [x for x in ast.walk(scope) if isinstance(x, ast.FunctionDef)]
+            holders = set()
+            if scope is cls:
+                holders.add("self")
+            for fn in fns:
+                for x in stmts_of(fn):
+                    if isinstance(x, (ast.Assign, ast.AnnAssign)) and isinstance(x.value, ast.Call) and isinstance(x.value.func, (ast.Name, ast.Attribute)):
+                        r = repo.resolve_expr(mi, x.value.func)
+                        if r == C:
+                            holders |= {dotted(t) for t in (x.targets if isinstance(x, ast.Assign) else [x.target]) if dotted(t)}
+            if not holders:
+                continue
+            for fn in fns:
+                for x in stmts_of(fn):
+                    for A in counters:
+                        tgts = {h + "." + A for h in holders}
+                        where = f"{mi.name}.{scope.name}" + (f".{fn.name}" if fn is not scope else "")
+                        if isinstance(x, (ast.Assign, ast.AnnAssign)) and x.value is not None:
+                            pairs = []
+                            at = cfg_of(fn).stmt_node.get(id(x))
+                            for t in (x.targets if isinstance(x, ast.Assign) else [x.target]):
+                                if dotted(t) in tgts:
+                                    pairs.append((t, x.value))
+                                elif isinstance(t, ast.Subscript) and dotted(t.value) in tgts and isinstance(t.slice, ast.Slice):
+                                    unread.append(f"{where}: `{short(x, 60)}`")
+                                elif isinstance(t, (ast.Tuple, ast.List)) and any(dotted(e_) in tgts for e_ in t.elts):
+                                    # element-wise `a, b = x, y`
+                                    vs = x.value.elts if isinstance(x.value, (ast.Tuple, ast.List)) and len(x.value.elts) == len(t.elts) and not any(isinstance(e_, ast.Starred) for e_ in list(t.elts) + list(x.value.elts)) else None
+                                    pairs += [(e_, v_) for e_, v_ in zip(t.elts, vs or []) if dotted(e_) in tgts]
+                                    if vs is None:
+                                        unread.append(f"{where}: `{short(x, 60)}`")
+                            for t, v in pairs:
+                                kind, shown = classify(v, dotted(t), scope, fn, mi, at) if at is not None else (None, short(v, 40))
+                                n_sites += 1
+                                if kind is None:
+                                    unread.append(f"{where}: `{short(x, 60)}`")
+                                    continue
+                                ok = kind == "unbounded"
+                                ck.ob("R5-scheduler", C, f"play-counter-unbounded:{A}:{where.split('.', 2)[-1]}", ok, f"`{short(x, 60)}` ({shown})",
+                                      "" if ok else f"choose_arm counts the plays as len(self.{A}) (initial rounds while the count is below 2 * n_arms), but the container is bounded by a quantity that "
+                                      f"does not depend on the number of arms ({shown}): its length saturates there, and with 2 * n_arms above the bound the initial-rounds test never becomes false "
+                                      "(the scheduler plays round-robin for ever and the index policy is never used)", loc(mi, x))
+                        elif isinstance(x, ast.Delete) and any(isinstance(t, ast.Subscript) and dotted(t.value) in tgts or dotted(t) in tgts for t in x.targets):
+                            unread.append(f"{where}: `{short(x, 60)}`")
+                        elif isinstance(x, ast.AugAssign) and dotted(x.target) in tgts and not isinstance(x.op, ast.Add):
+                            unread.append(f"{where}: `{short(x, 60)}`")
+                        for c in ast.walk(x) if not isinstance(x, (ast.If, ast.For, ast.While, ast.With, ast.Try)) else []:
+                            if isinstance(c, ast.Call) and isinstance(c.func, ast.Attribute) and dotted(c.func.value) in tgts and c.func.attr in _SHRINK:
+                                unread.append(f"{where}: `{short(c, 60)}`")
+    ck.count("R5-play-counter-bindings", n_sites)
+    if n_sites == 0:
+        raise AnalysisError(f"{C}: no binding of the play-counter container(s) {counters} found (unrecognised form)")
+    if unread:
+        raise AnalysisError(f"{C}: the container whose length counts the plays is handled through {unread[:2]} (unrecognised form)")
+
+
 def positional_params_(fn):
     return [a.arg for a in fn.args.args if a.arg != "self"]
 
@@ -1767,9 +2092,16 @@ def _scheduler_guard(repo, cfg, mi, site, H, budget):
     sc = Scope(cfg, mi, {}, site)
     sc.opaque_names = set(state) | {budget}
     hits = []
-    for txt, truth in cfg._lits(t, True, H.id):
-        e = _parse(txt)
-        D = _gap(nfq, sc, e, truth, H.id) if e is not None else None
+    lits = [(_parse(txt), truth, H.id) for txt, truth in cfg._lits(t, True, H.id)]
+    # guard clauses in the body (`while True: if counter >= budget: break`): the comparisons that hold whenever the single-task call runs
+    calls = [n for n in cfg.nodes if n.kind == "stmt" and n.ast is not None and H.id in cfg.enclosing_loops(n.id)
+             and any(isinstance(c, ast.Call) and isinstance(c.func, ast.Name) and c.func.id == "train_st" for c in ast.walk(n.ast))]
+    if len(calls) == 1:
+        class _Shim:
+            step_node = calls[0].id
+        lits += [(e, truth, b) for b, e, truth in _step_guard_literals(cfg, _Shim) if b != H.id and _fresh(cfg, H.id, e, b, state)]
+    for e, truth, at in lits:
+        D = _gap(nfq, sc, e, truth, at) if e is not None else None
         if D is None or _unread(D):
             continue
         for c in sorted(a for a in D.atoms() if a in state):
@@ -2004,17 +2336,27 @@ def run(ck, repo: Repo, tier: str):
     cfgs = {}
     res = Resolver(repo)
     nf = NF(repo)
-    loops = {q: find_env_loop(repo, q, cfgs) for q in ENV_LOOPS}
-    ck.floor("env-loops", len(loops), 21)
+    # every environment loop is its own group: a loop written in a form the loop reader does not read leaves the others judged
+    loops, unread_loops = {}, set()
+    for q in ENV_LOOPS:
+        L_ = ck.guard(find_env_loop, repo, q, cfgs)
+        if L_ is None:
+            unread_loops.add(q)
+        else:
+            L_._repo = repo
+            loops[q] = L_
+    ck.floor("env-loops", len(loops) + len(unread_loops), 21)
     seeds, learn_set = learners(repo, res)
     ck.floor("update-routines", len(seeds), 12)
     ck.extra["update_routines"] = sorted(seeds)
     ck.extra["call_graph"] = dict(res.cg_stats)
     for q in COUNTER_ROUTINES:
-        ck.guard(r1_count, ck, repo, loops[q], "global_step")
+        if q in loops:
+            ck.guard(r1_count, ck, repo, loops[q], "global_step")
     ck.floor("counter-routines", len(COUNTER_ROUTINES), 9)
     for q in STEP_BUDGET:
-        ck.guard(r2_budget, ck, repo, loops[q])
+        if q in loops:
+            ck.guard(r2_budget, ck, repo, loops[q])
     for q, L in loops.items():
         ck.guard(r2_episodes, ck, repo, L)
         if q not in VECTOR_LOOPS:
@@ -2025,6 +2367,7 @@ def run(ck, repo: Repo, tier: str):
     ck.guard(r5_selectors, ck, repo)
     ck.guard(r5_ducb, ck, repo, nf)
     ck.guard(r5_ducb_mean, ck, repo, nf)
+    ck.guard(r5_ducb_play_counter, ck, repo)
     for q, b in MT_LOOPS.items():
         b = _role_param(repo.func(q), q, b) or b
         ck.guard(r5_budget_symbolic, ck, repo, nf, q, b)
@@ -2099,6 +2442,24 @@ MUTANTS = [
     {"id": "c11-ducb-round-robin-modulus", "file": "rl_blox/blox/mapb.py", "rule": "R5", "find": "            arm_idx = len(self.rewards) % self.n_arms", "replace": "            arm_idx = len(self.rewards) % (self.n_arms + 1)"},
     {"id": "c11-ducb-argmax-of-mean-only", "file": "rl_blox/blox/mapb.py", "rule": "R5", "find": "            ducb = mean + padding", "replace": "            ducb = mean"},
     {"id": "c11-ducb-threshold-le", "file": "rl_blox/blox/mapb.py", "rule": "R5", "find": "        if len(self.rewards) < 2 * self.n_arms:", "replace": "        if len(self.rewards) <= 2 * self.n_arms:"},
+    # result records written with keyword arguments / a record type bound first / returned through a local (read by field order of the type)
+    {"id": "c11-dqn-result-keyword-plus1", "file": _A + "dqn.py", "rule": "R1", "find": ")(q_net, optimizer, replay_buffer, step)", "replace": ")(q_net, optimizer, replay_buffer=replay_buffer, global_step=step + 1)"},
+    {"id": "c11-dqn-result-type-first-minus1", "file": _A + "dqn.py", "rule": "R1", "find": "    return namedtuple(\n        \"DQNResult\", [\"q_net\", \"optimizer\", \"replay_buffer\", \"global_step\"]\n    )(q_net, optimizer, replay_buffer, step)",
+     "replace": "    DQNResult = namedtuple(\n        \"DQNResult\", [\"q_net\", \"optimizer\", \"replay_buffer\", \"global_step\"]\n    )\n    outcome = DQNResult(global_step=step - 1, q_net=q_net, optimizer=optimizer, replay_buffer=replay_buffer)\n    return outcome"},
+    {"id": "c11-ddpg-range-from-alias-plus1", "file": _A + "ddpg.py", "rule": "R1", "edits": [("    steps_trained = global_step\n    for global_step in trange(\n        global_step, total_timesteps", "    first_step = global_step + 1\n    steps_trained = first_step\n    for global_step in trange(\n        global_step, total_timesteps")]},
+    # scheduler budget guard written as a guard clause
+    {"id": "c11-uts-guard-in-body-gt", "file": _A + "uniform_task_sampling.py", "rule": "R2", "find": "    while global_step < total_timesteps:\n", "replace": "    while True:\n        if global_step > total_timesteps:\n            break\n"},
+    {"id": "c11-amt-guard-in-body-gt", "file": _A + "active_mt.py", "rule": "R2", "find": "    while global_step < total_timesteps:\n", "replace": "    while True:\n        if not global_step <= total_timesteps:\n            break\n"},
+    # episode-end flag computed from the fields of an immutable record that carries this step's results
+    {"id": "c11-td3-record-flag-terminated-only", "file": _A + "td3.py", "rule": "R3", "edits": [("def sample_target_actions(", "class _StepOutcome(NamedTuple):\n    ended: bool\n    cut: bool\n\n\ndef sample_target_actions("),
+        ("        if termination or truncated:\n            if logger is not None:\n                logger.record_stat(\"return\"", "        outcome = _StepOutcome(ended=termination, cut=truncated)\n        done = outcome.ended\n        if done:\n            if logger is not None:\n                logger.record_stat(\"return\"")]},
+    # the container whose length counts the plays of D-UCB saturates at a bound that does not depend on the number of arms
+    {"id": "c11-ducb-rewards-bounded-deque", "file": "rl_blox/blox/mapb.py", "rule": "R5", "edits": [("import numpy as np\n", "import collections\n\nimport numpy as np\n"), ("        self.rewards = []\n", "        self.rewards = collections.deque([], 500)\n")]},
+    {"id": "c11-ducb-rewards-bounded-by-discount", "file": "rl_blox/blox/mapb.py", "rule": "R5", "edits": [("import numpy as np\n", "from collections import deque\n\nimport numpy as np\n"), ("        self.rewards = []\n", "        memory = int(10.0 / (1.0 - gamma)) if gamma < 1.0 else None\n        self.rewards = deque(maxlen=memory)\n")]},
+    {"id": "c11-ducb-rewards-truncated-by-holder", "file": "rl_blox/blox/multitask.py", "rule": "R5", "find": "            self.ducb.chosen_arms = self.ducb.chosen_arms[:-1]\n", "replace": "            self.ducb.chosen_arms = self.ducb.chosen_arms[:-1]\n            self.ducb.rewards = self.ducb.rewards[-100:]\n"},
+    {"id": "c11-ducb-histories-tuple-assign-bounded", "file": "rl_blox/blox/mapb.py", "rule": "R5", "edits": [("import numpy as np\n", "from collections import deque\n\nimport numpy as np\n\n_MEMORY = 4 * 64\n"), ("        self.chosen_arms = []\n        self.rewards = []\n", "        self.chosen_arms, self.rewards = deque(maxlen=_MEMORY), deque(maxlen=_MEMORY)\n")]},
+    {"id": "c11-td3-counter-from-start-copy-plus1", "file": _A + "td3.py", "rule": "R1", "find": "    step = global_step\n", "replace": "    first_step = global_step + 1\n    step = first_step\n"},
+    {"id": "c11-ducb-rewards-truncated", "file": "rl_blox/blox/mapb.py", "rule": "R5", "find": "        self.rewards.append(r)\n", "replace": "        self.rewards.append(r)\n        self.rewards = self.rewards[-int(5.0 / (1.0 - self.gamma)):]\n"},
 ]
 BENIGN = [
     {"id": "c11-b-amt-warm-up-int", "file": _A + "active_mt.py", "find": '            learning_starts=learning_starts,\n            total_timesteps=total_timesteps,\n', "replace": '            learning_starts=int(learning_starts),\n            total_timesteps=total_timesteps,\n'},
@@ -2136,4 +2497,27 @@ BENIGN = [
     {"id": "c11-b-ducb-padding-locals", "file": "rl_blox/blox/mapb.py", "find": "    def _padding_function(self, arm_idx):\n        return (\n            2\n            * self.upper_bound\n            * np.sqrt(\n                self.zeta\n                * np.log(self.total_frequency)\n                / self.discounted_frequencies[arm_idx]\n            )\n        )", "replace": "    def _padding_function(self, arm):\n        ratio = self.zeta * np.log(self.total_frequency) / self.discounted_frequencies[arm]\n        return 2 * self.upper_bound * np.sqrt(ratio)"},
     {"id": "c11-b-smt-rename-totals", "file": _A + "smt.py", "all": True, "find": "training_steps", "replace": "steps_per_task"},
     {"id": "c11-b-amt-subcall-int", "file": _A + "active_mt.py", "edits": [("            total_timesteps=total_timesteps,\n            total_episodes=scheduling_interval,", "            total_timesteps=int(total_timesteps),\n            total_episodes=scheduling_interval,"), ("    while global_step < total_timesteps:", "    while total_timesteps >= global_step + 1:")]},
+    # result records: keyword arguments, record type bound first, returned through a local; range start / initial count through a copy of the start
+    {"id": "c11-b-dqn-result-keyword", "file": _A + "dqn.py", "find": ")(q_net, optimizer, replay_buffer, step)", "replace": ")(q_net, optimizer, global_step=step, replay_buffer=replay_buffer)"},
+    {"id": "c11-b-dqn-result-type-first", "file": _A + "dqn.py", "find": "    return namedtuple(\n        \"DQNResult\", [\"q_net\", \"optimizer\", \"replay_buffer\", \"global_step\"]\n    )(q_net, optimizer, replay_buffer, step)",
+     "replace": "    DQNResult = namedtuple(\n        \"DQNResult\", [\"q_net\", \"optimizer\", \"replay_buffer\", \"global_step\"]\n    )\n    outcome = DQNResult(global_step=step, q_net=q_net, optimizer=optimizer, replay_buffer=replay_buffer)\n    return outcome"},
+    {"id": "c11-b-dqn-result-class", "file": _A + "dqn.py", "edits": [("def train_dqn(", "class DQNOutcome(NamedTuple):\n    q_net: nnx.Module\n    optimizer: nnx.Optimizer\n    replay_buffer: ReplayBuffer\n    global_step: int\n\n\ndef train_dqn("),
+        ("    return namedtuple(\n        \"DQNResult\", [\"q_net\", \"optimizer\", \"replay_buffer\", \"global_step\"]\n    )(q_net, optimizer, replay_buffer, step)", "    return DQNOutcome(q_net, optimizer, replay_buffer, global_step=step)")]},
+    {"id": "c11-b-ddpg-range-from-alias", "file": _A + "ddpg.py", "edits": [("    steps_trained = global_step\n    for global_step in trange(\n        global_step, total_timesteps", "    first_step = global_step\n    steps_trained = first_step\n    for global_step in trange(\n        first_step, total_timesteps")]},
+    {"id": "c11-b-uts-guard-in-body", "file": _A + "uniform_task_sampling.py", "find": "    while global_step < total_timesteps:\n", "replace": "    while True:\n        if global_step >= total_timesteps:\n            break\n"},
+    {"id": "c11-b-amt-guard-in-body", "file": _A + "active_mt.py", "find": "    while global_step < total_timesteps:\n", "replace": "    while True:\n        if not global_step < total_timesteps:\n            break\n"},
+    {"id": "c11-b-smt-guard-in-body", "file": _A + "smt.py", "find": "    while global_step < b_total:\n", "replace": "    while True:\n        if b_total <= global_step:\n            break\n"},
+    {"id": "c11-b-td3-record-flag", "file": _A + "td3.py", "edits": [("def sample_target_actions(", "class _StepOutcome(NamedTuple):\n    ended: bool\n    cut: bool\n\n\ndef sample_target_actions("),
+        ("        if termination or truncated:\n            if logger is not None:\n                logger.record_stat(\"return\"", "        outcome = _StepOutcome(ended=termination, cut=truncated)\n        done = outcome.ended or outcome.cut\n        if done:\n            if logger is not None:\n                logger.record_stat(\"return\"")]},
+    # D-UCB history containers that keep every play (or whose bound involves the number of arms: not decided, never a violation)
+    {"id": "c11-b-ducb-rewards-unbounded-deque", "file": "rl_blox/blox/mapb.py", "edits": [("import numpy as np\n", "from collections import deque\n\nimport numpy as np\n"), ("        self.rewards = []\n", "        self.rewards = deque(maxlen=None)\n")]},
+    {"id": "c11-b-ducb-rewards-list-call", "file": "rl_blox/blox/mapb.py", "find": "        self.rewards = []\n", "replace": "        self.rewards: list[float] = list()\n"},
+    {"id": "c11-b-ducb-rewards-bound-covers-initial-rounds", "file": "rl_blox/blox/mapb.py", "edits": [("import numpy as np\n", "from collections import deque\n\nimport numpy as np\n"), ("        self.rewards = []\n", "        self.rewards = deque(maxlen=None if gamma >= 1.0 else max(2 * n_arms, 100000))\n")]},
+    {"id": "c11-b-ducb-arms-bounded-deque", "file": "rl_blox/blox/mapb.py", "edits": [("import numpy as np\n", "from collections import deque\n\nimport numpy as np\n"), ("        self.discounted_frequencies = np.zeros(self.n_arms)\n", "        self.discounted_frequencies = np.zeros(self.n_arms)\n        self.recent_means = deque(maxlen=10)\n")]},
+    {"id": "c11-b-ducb-unseen-play-popped", "file": "rl_blox/blox/multitask.py", "find": "            self.ducb.chosen_arms = self.ducb.chosen_arms[:-1]\n", "replace": "            self.ducb.chosen_arms.pop()\n"},
+    {"id": "c11-b-ducb-histories-tuple-assign", "file": "rl_blox/blox/mapb.py", "find": "        self.chosen_arms = []\n        self.rewards = []\n", "replace": "        self.chosen_arms, self.rewards = [], []\n"},
+    {"id": "c11-b-ducb-rewards-through-local", "file": "rl_blox/blox/mapb.py", "find": "        self.rewards = []\n", "replace": "        history = list()\n        self.rewards = history if verbose >= 0 else []\n"},
+    {"id": "c11-b-ducb-count-local", "file": "rl_blox/blox/mapb.py", "edits": [("        if len(self.rewards) < 2 * self.n_arms:\n            arm_idx = len(self.rewards) % self.n_arms", "        n_plays = len(self.rewards)\n        if not n_plays >= self.n_arms * 2:\n            arm_idx = n_plays % self.n_arms")]},
+    {"id": "c11-b-td3-counter-from-start-copy", "file": _A + "td3.py", "find": "    step = global_step\n", "replace": "    first_step = int(global_step)\n    step = first_step\n"},
+    {"id": "c11-b-sac-result-keyword-local", "file": _A + "sac.py", "find": "        replay_buffer,\n        step,\n    )", "replace": "        replay_buffer,\n        global_step=int(step),\n    )"},
 ]
